@@ -15,7 +15,7 @@ ID = "C11"
 LEVEL = "exploration"
 SHARDS = {"quick": 8, "thorough": 16}
 RULE = ("a raw 0xC0 body (assembled by the model's vendor-layout encoder plus raw byte overrides) is reported to a fresh "
-        "AirConditioner, either through refresh() against the model device or through Response.construct + _update_state, or twice to the same client with local attribute changes in between, or after a different report to the same client, or through a multi-query refresh (energy polling on) in which an unsolicited notification overtakes the state reply or the optional energy query goes unanswered; the "
+        "AirConditioner, either through refresh() against the model device or through Response.construct + _update_state, or twice to the same client with local attribute changes in between, or after a different report to the same client (optionally with 1..3 late duplicates of that earlier report waiting unread on the idle connection), or through the refresh that toggle_display() performs against a unit that does not act on the display command, or through a multi-query refresh (energy polling on) in which an unsolicited notification overtakes the state reply or the optional energy query goes unanswered; the "
         "public attributes must equal the vendor-layout reading of the body: power, mode (members 1..6), setpoint (alternate code "
         "c!=0 => c+12 else primary+16, + half bit), fan (member or raw 0..127), swing (canonical nibbles), turbo, aux mode, eco, "
         "purifier, sleep, Fahrenheit, follow-me, filter, display ((b14>>4)&7 != 7), target humidity iff length>=20 else None, "
@@ -100,8 +100,23 @@ def check_case(case: dict):
                 # history: the same client saw another report first (every field different where the layout allows)
                 current["frame"] = rc.frame_build(3, bytes.fromhex(case["before"]), proto=3)
                 await ac.refresh()
+                if case.get("stale"):
+                    # ... and a late duplicate of that earlier report (the answer to a retransmission, or a pushed report) reaches the
+                    # idle connection `stale` times and waits there unread; then the unit changes state
+                    import asyncio
+                    conn = dev.conns[-1]
+                    for _ in range(case["stale"]):
+                        conn.send_stream(dev.wrap(conn, current["frame"]), delay=0.01)
+                    await asyncio.sleep(case.get("stale_wait", 0.5))
                 current["frame"] = frame
-            await ac.refresh()
+            if via == "toggle":
+                # the refresh happens inside toggle_display(): an earlier refresh, then the display command - which this unit does
+                # not act on (switched off / no display control / delayed): what it reports afterwards is what counts
+                if not case.get("before"):
+                    await ac.refresh()
+                await ac.toggle_display()
+            else:
+                await ac.refresh()
             if via == "refresh2":
                 # history: the same state was already reported once, then the user changed attributes locally
                 # (without applying them); the next refresh must report the device's state again
@@ -150,7 +165,7 @@ def _nt(body: bytes, case) -> bool:
 
 def _run_one(ctx, case):
     body = bytes.fromhex(case["body"])
-    ctx.case(hash((body, case.get("via", "decoder"), case.get("check", "crc"), case.get("ftype", 3), case.get("before"), case.get("energy_silent"))), _nt(body, case),
+    ctx.case(hash((body, case.get("via", "decoder"), case.get("check", "crc"), case.get("ftype", 3), case.get("before"), case.get("energy_silent"), case.get("stale"))), _nt(body, case),
              cls=case.get("cls", "random") + "/" + case.get("via", "decoder"))
     ctx.sample(case.get("cls", "random"), case)
     return check_case(case)
@@ -228,7 +243,14 @@ def run(ctx) -> None:
             seq += 1
             if ctx.mine(seq):
                 c3 = dict(case, via="refresh", version=2 if seq % 3 else 3, before=full.hex(), cls=case["cls"] + " after another report")
+                if seq % 2:
+                    c3["stale"] = 1 + (seq // 2) % 3
+                    c3["stale_wait"] = [0.5, 3.0, 120.0][(seq // 6) % 3]
                 ctx.check(c3, lambda c: _run_one(ctx, c))
+                c5 = dict(case, via="toggle", version=2 if seq % 2 else 3, cls=case["cls"] + " via toggle_display")
+                if seq % 4 == 0:
+                    c5["before"] = full.hex()
+                ctx.check(c5, lambda c: _run_one(ctx, c))
             if ctx.mine(seq + 1) and seq % 2 == 0:
                 c4 = dict(case, via="refresh_multi", version=2 if seq % 3 else 3, cls=case["cls"] + " multi-query")
                 if seq % 4 == 0:
@@ -243,6 +265,9 @@ def run(ctx) -> None:
 
     overrides = st.dictionaries(st.sampled_from([1, 2, 4, 5, 6, 7, 8, 9, 10, 13, 14, 15, 16, 17, 18, 19, 20, 21, 22, 23]), st.integers(0, 255), max_size=6) \
         .map(lambda d: {k: (v if k != 15 else ((v & 0xF) % 10) | (((v >> 4) % 10) << 4)) for k, v in d.items()})
+    FULL = "c001ab667f7f003c1f18ff5c68140d6e000000283c012c00"
     rc_cases = st.builds(mk, gens.device_states(), st.integers(16, 40), overrides, st.sampled_from(["crc", "sum"]), st.sampled_from([2, 3]),
-                         st.sampled_from(["decoder", "refresh", "refresh2", "refresh_multi"]), st.sampled_from([2, 3]))
+                         st.sampled_from(["decoder", "refresh", "refresh2", "refresh_multi", "toggle", "refresh"]), st.sampled_from([2, 3]))
+    rc_cases = st.tuples(rc_cases, st.sampled_from([0, 0, 1, 2, 3]), st.sampled_from([0.5, 3.0, 120.0])).map(
+        lambda t: dict(t[0], before=FULL, stale=t[1], stale_wait=t[2]) if (t[1] and t[0]["via"] == "refresh") else t[0])
     ctx.hyp("random", rc_cases, lambda c: _run_one(ctx, c), ctx.n(3000, 320000))
